@@ -70,13 +70,13 @@ var natVals = []uint64{0, 1, 0xff, 0x100, 0xffff, 0x10000, 0xffffffff, 0x1000000
 // milliseconds; the largest is the largest whole number of milliseconds a time.Duration holds
 var timeVals = []uint64{0, 1, 0xff, 0x100, 0xffff, 0x10000, 0xffffffff, 0x100000000, uint64(math.MaxInt64 / int64(time.Millisecond))}
 
-var byteLens = []int{0, 1, 252, 253, 65536}
+var byteLens = []int{0, 1, 8, 252, 253, 65536}
 
 // The all-maximal base takes 253-byte contents (the shortest length that needs the 3-byte length
 // form); 65536-byte contents (5-byte form) occur as single deviations from every base. An
 // all-65536 base would make every value of the larger models a megabyte and every insertion a
 // megabyte copy, for no additional behaviour in the generated code.
-const maxLenIdx = 3
+const maxLenIdx = 4
 
 func scalarDomain(td *typeDesc, vals []uint64, mkv func(t reflect.Type, x uint64) reflect.Value, noAbsent bool) *domain {
 	d := &domain{}
@@ -173,6 +173,10 @@ func nameChoices() []nameChoice {
 		{"/a + 4 empty components", func() enc.Name { return empties(4, 2) }},
 		{"/a + 5 empty components", func() enc.Name { return empties(5, 2) }},
 		{"/a + 8 empty components", func() enc.Name { return empties(8, 2) }},
+		// component type numbers that need the 9-octet form (enc.Component.Typ is a 64-bit TLNum)
+		{"/typed(2^32,2^64-1)", func() enc.Name {
+			return enc.Name{comp(1<<32, []byte("p")), comp(1<<64-1, pattern(9, 2))}
+		}},
 		{"total252", func() enc.Name { return enc.Name{comp(8, pattern(250, 3))} }},
 		{"total253", func() enc.Name { return enc.Name{comp(8, pattern(251, 3))} }},
 		{"comp252", func() enc.Name { return enc.Name{comp(8, pattern(252, 3))} }},
